@@ -1025,6 +1025,11 @@ class DynReferenceElement(LFRicCollection):
             # remove duplicates with an OrderedDict
             nface_vars = list(OrderedDict.fromkeys(
                 self._arg_properties.values()))
+            if (self._nfaces_h_required and
+                    self._nfaces_h_symbol not in nface_vars):
+                # A mesh property needs the number of horizontal faces even
+                # though no horizontal-face property has been requested.
+                nface_vars.append(self._nfaces_h_symbol)
         elif self._nfaces_h_required:
             # We only need the number of 'horizontal' faces
             nface_vars = [self._nfaces_h_symbol]
